@@ -41,7 +41,7 @@ type c14Ev struct {
 	C      int    // connection serial within the peer (enrol, closed)
 	A      int    // address index proven in the handshake (enrol)
 	R      int    // role proven in the handshake (enrol)
-	Closed bool   // Conn.IsClosed() at the time of addPeer (enrol)
+	Closed bool   // Conn.IsClosed() at the time of addPeer (enrol); addPeer then answers true and tracks nothing
 	S      int    // stream index (lookup, track, start, end, rmstream)
 }
 
